@@ -640,3 +640,222 @@ class XKey:
         if not any(out): raise ValueError('all-zero shared secret')
         return out
     def pkcs8(s): return der_seq(der_int(0), der_seq(der_oid(XOID[s.kind])), der_octets(der_octets(s.sk)))
+
+# ------------------------------------------------------------------ PKCS#8 (RFC 5208) parse
+_OID_RSA = der_oid('1.2.840.113549.1.1.1'); _OID_EC = der_oid('1.2.840.10045.2.1'); _OID_DSA = der_oid('1.2.840.10040.4.1'); _OID_DH = der_oid('1.2.840.113549.1.3.1')
+def pkcs8_parse(blob, strict=True):
+    """-> dict(type=..., fields...) or raises DERError.  RSA, EC (named curve), DSA, DH, Ed25519/Ed448, X25519/X448."""
+    top = der_items(der_top(blob, 0x30, strict), strict)
+    if len(top) < 3: raise DERError('PrivateKeyInfo needs version, algorithm, key')
+    if der_get_int(top[0]) not in (0, 1): raise DERError('version')
+    alg = der_items(der_expect(top[1], 0x30), strict)
+    if not alg or alg[0][0] != 6: raise DERError('algorithm OID')
+    oid = der(6, alg[0][1]); key = der_expect(top[2], 4)
+    if oid == _OID_RSA:
+        f = der_items(der_top(key, 0x30, strict), strict)
+        if len(f) < 9: raise DERError('RSAPrivateKey fields')
+        v = [der_get_int(x) for x in f[:9]]
+        if v[0] != 0: raise DERError('RSAPrivateKey version')
+        return dict(type='rsa', n=v[1], e=v[2], d=v[3], p=v[4], q=v[5], dp=v[6], dq=v[7], qinv=v[8])
+    if oid == _OID_EC:
+        if len(alg) < 2 or alg[1][0] != 6: raise DERError('EC parameters must be a named curve')
+        params = der(6, alg[1][1]); cv = [c for c in CURVES.values() if c.params == params]
+        f = der_items(der_top(key, 0x30, strict), strict)
+        if len(f) < 2 or der_get_int(f[0]) != 1: raise DERError('ECPrivateKey version')
+        d = os2ip(der_expect(f[1], 4)); out = dict(type='ec', params=params, curve=cv[0] if cv else None, d=d, dlen=len(f[1][1]), point=None)
+        for t, c in f[2:]:
+            if t == 0xA1:
+                b = der_top(c, 3, strict)
+                if not b or b[0] != 0: raise DERError('BIT STRING unused bits')
+                out['point'] = b[1:]
+        return out
+    if oid == _OID_DSA:
+        if len(alg) < 2: raise DERError('DSA parameters')
+        pr = [der_get_int(x) for x in der_items(der_expect(alg[1], 0x30), strict)]
+        if len(pr) != 3: raise DERError('DSA parameters')
+        return dict(type='dsa', p=pr[0], q=pr[1], g=pr[2], x=der_get_int((2, der_top(key, 2, strict))))
+    if oid == _OID_DH:
+        if len(alg) < 2: raise DERError('DH parameters')
+        pr = [der_get_int(x) for x in der_items(der_expect(alg[1], 0x30), strict)]
+        if len(pr) < 2: raise DERError('DH parameters')
+        return dict(type='dh', p=pr[0], g=pr[1], x=der_get_int((2, der_top(key, 2, strict))))
+    for name, c in list(EDCURVES.items()) + [(k, None) for k in XOID]:
+        if oid == der_oid(c.oid if c else XOID[name]):
+            sk = der_top(key, 4, strict)
+            if len(sk) != (c.blen if c else len(XBASE[name])): raise DERError('raw key length')
+            return dict(type='ed' if c else 'x', curve=name, sk=sk)
+    raise DERError('unknown algorithm')
+
+# ------------------------------------------------------------------ self-test
+def _second_opinions(report):
+    """Optional cross-checks against other independent libraries (nettle/hogweed modes and curves, libsodium).  Returns number run."""
+    import random; rnd = random.Random(7); n = 0
+    def rb(k): return bytes(rnd.getrandbits(8) for _ in range(k))
+    # nettle: GCM, CMAC, CTR, CBC
+    try:
+        for klen in (16, 24, 32):
+            key = rb(klen); a = AES(key); b = {16: '128', 24: '192', 32: '256'}[klen]
+            for mlen in (0, 1, 15, 16, 17, 31, 32, 33, 100):
+                msg = rb(mlen); iv = rb(12); aad = rb(mlen % 7 * 5)
+                ctx = C.create_string_buffer(8192); _sym('nettle_gcm_aes%s_set_key' % b)(ctx, key); _sym('nettle_gcm_aes%s_set_iv' % b)(ctx, C.c_size_t(12), iv)
+                _sym('nettle_gcm_aes%s_update' % b)(ctx, C.c_size_t(len(aad)), aad); o = C.create_string_buffer(mlen or 1); _sym('nettle_gcm_aes%s_encrypt' % b)(ctx, C.c_size_t(mlen), o, msg)
+                t = C.create_string_buffer(16); _sym('nettle_gcm_aes%s_digest' % b)(ctx, C.c_size_t(16), t)
+                assert gcm(a, iv, aad, msg) == o.raw[:mlen] + t.raw, 'GCM vs nettle'; n += 1
+                if hasattr(_n, 'nettle_cmac_aes%s_set_key' % b):
+                    ctx = C.create_string_buffer(4096); _sym('nettle_cmac_aes%s_set_key' % b)(ctx, key); _sym('nettle_cmac_aes%s_update' % b)(ctx, C.c_size_t(mlen), msg)
+                    t = C.create_string_buffer(16); _sym('nettle_cmac_aes%s_digest' % b)(ctx, C.c_size_t(16), t)
+                    assert cmac(a, msg) == t.raw, 'CMAC-AES vs nettle'; n += 1
+            # CTR and CBC through nettle's generic mode helpers
+            cb = rb(12) + b'\xff\xff\xff\xfe'; msg = rb(70); o = C.create_string_buffer(70); cbuf = C.create_string_buffer(cb, 16)
+            _n.nettle_ctr_crypt(a.ctxe, a._e, C.c_size_t(16), cbuf, C.c_size_t(70), o, msg); assert ctr(a, cb, msg, 128) == o.raw, 'CTR vs nettle'; n += 1
+            iv = rb(16); msg = rb(64); o = C.create_string_buffer(64); ivb = C.create_string_buffer(iv, 16)
+            _n.nettle_cbc_encrypt(a.ctxe, a._e, C.c_size_t(16), ivb, C.c_size_t(64), o, msg); assert cbc(a, iv, msg) == o.raw, 'CBC vs nettle'; n += 1
+        try:
+            key = rb(24); d = DES3(key)
+            for mlen in (0, 7, 8, 9, 24, 30):
+                msg = rb(mlen); ctx = C.create_string_buffer(4096); _n.nettle_cmac_des3_set_key(ctx, key); _n.nettle_cmac_des3_update(ctx, C.c_size_t(mlen), msg)
+                t = C.create_string_buffer(8); _n.nettle_cmac_des3_digest(ctx, C.c_size_t(8), t); assert cmac(d, msg) == t.raw, 'CMAC-DES3 vs nettle'; n += 1
+        except AttributeError: report.append('nettle has no cmac_des3')
+    except AttributeError as e: report.append('nettle mode cross-check skipped: %r' % (e,))
+    # hogweed: Ed25519, Ed448, X25519, X448
+    try:
+        hw = C.CDLL('libhogweed.so.6')
+        for _ in range(4):
+            sk = rb(32); msg = rb(rnd.randrange(0, 80)); pub = C.create_string_buffer(32); hw.nettle_ed25519_sha512_public_key(pub, sk); k = EdKey(ED25519, sk)
+            assert k.pk == pub.raw, 'Ed25519 public key vs hogweed'; sg = C.create_string_buffer(64); hw.nettle_ed25519_sha512_sign(pub, sk, C.c_size_t(len(msg)), msg, sg)
+            assert k.sign(msg) == sg.raw and hw.nettle_ed25519_sha512_verify(pub, C.c_size_t(len(msg)), msg, k.sign(msg)) == 1, 'Ed25519 vs hogweed'; n += 1
+            sk = rb(57); pub = C.create_string_buffer(57); hw.nettle_ed448_shake256_public_key(pub, sk); k = EdKey(ED448, sk)
+            assert k.pk == pub.raw, 'Ed448 public key vs hogweed'; sg = C.create_string_buffer(114); hw.nettle_ed448_shake256_sign(pub, sk, C.c_size_t(len(msg)), msg, sg)
+            assert k.sign(msg) == sg.raw and k.verify(msg, sg.raw), 'Ed448 vs hogweed'; n += 1
+            a, u = rb(32), rb(32); o = C.create_string_buffer(32); hw.nettle_curve25519_mul(o, a, u); assert x25519(a, u) == o.raw, 'X25519 vs hogweed'; n += 1
+            a, u = rb(56), rb(56); o = C.create_string_buffer(56); hw.nettle_curve448_mul(o, a, u); assert x448(a, u) == o.raw, 'X448 vs hogweed'; n += 1
+    except (OSError, AttributeError) as e: report.append('hogweed cross-check skipped: %r' % (e,))
+    try:
+        so = C.CDLL(ctypes.util.find_library('sodium') or 'libsodium.so.23'); so.sodium_init()
+        for _ in range(3):
+            seed = rb(32); pk = C.create_string_buffer(32); sk = C.create_string_buffer(64); so.crypto_sign_ed25519_seed_keypair(pk, sk, seed); k = EdKey(ED25519, seed)
+            msg = rb(33); sg = C.create_string_buffer(64); so.crypto_sign_ed25519_detached(sg, None, msg, C.c_ulonglong(len(msg)), sk)
+            assert k.pk == pk.raw and k.sign(msg) == sg.raw, 'Ed25519 vs libsodium'; n += 1
+            key = rb(32); msg = rb(50); o = C.create_string_buffer(32); so.crypto_auth_hmacsha256(o, msg, C.c_ulonglong(50), key); assert hmac('sha256', key, msg) == o.raw, 'HMAC vs libsodium'; n += 1
+    except (OSError, AttributeError) as e: report.append('libsodium cross-check skipped: %r' % (e,))
+    return n
+
+def selftest(verbose=False):
+    import random; rnd = random.Random(1); H = bytes.fromhex; n = 0
+    def ok(cond, what):
+        nonlocal n; n += 1
+        if not cond: raise AssertionError('refcrypt self-test failed: ' + what)
+    # FIPS 197 appendix C
+    pt = H('00112233445566778899aabbccddeeff')
+    for klen, ct in ((16, '69c4e0d86a7b0430d8cdb78070b4c55a'), (24, 'dda97ca4864cdfe06eaf70a0ec0d7191'), (32, '8ea2b7ca516745bfeafc49904b496089')):
+        a = AES(bytes(range(klen))); ok(a.enc(pt) == H(ct) and a.dec(H(ct)) == pt, 'FIPS-197 AES-%d' % (klen * 8))
+    # SP 800-38A F.1.1 / F.2.1 / F.5.1 (AES-128)
+    k = AES(H('2b7e151628aed2a6abf7158809cf4f3c')); p2 = H('6bc1bee22e409f96e93d7e117393172aae2d8a571e03ac9c9eb76fac45af8e51')
+    ok(ecb(k, p2) == H('3ad77bb40d7a3660a89ecaf32466ef97f5d3d58503b9699de785895a96fdbaaf') and ecb(k, ecb(k, p2), False) == p2, 'SP800-38A ECB')
+    iv = bytes(range(16)); ok(cbc(k, iv, p2) == H('7649abac8119b246cee98e9b12e9197d5086cb9b507219ee95db113a917678b2') and cbc(k, iv, cbc(k, iv, p2), False) == p2, 'SP800-38A CBC')
+    ok(ctr(k, H('f0f1f2f3f4f5f6f7f8f9fafbfcfdfeff'), p2) == H('874d6191b620e3261bef6864990db6ce9806f66b7970fdff8617187bb9fffdff'), 'SP800-38A CTR')
+    ok(ctr(k, b'\xff' * 16, p2, 8) == xor(p2, k.enc(b'\xff' * 16) + k.enc(b'\xff' * 15 + b'\0')), 'CTR n-bit wrap')
+    # SP 800-38B D.1 (AES-128) and the TDEA example keys
+    m64 = p2 + H('30c81c46a35ce411e5fbc1191a0a52eff69f2445df4f9b17ad2b417be66c3710')
+    for ln, t in ((0, 'bb1d6929e95937287fa37d129b756746'), (16, '070a16b46b4d4144f79bdd9dd04a287c'), (40, 'dfa66747de9ae63030ca32611497c827'), (64, '51f0bebf7e3b9d92fc49741779363cfe')):
+        ok(cmac(k, m64[:ln]) == H(t), 'SP800-38B CMAC-AES len %d' % ln)
+    d3 = DES3(H('8aa83bf8cbda10620bc1bf19fbb6cd58bc313d4a371ca8b5'))
+    ok(cmac(d3, b'') == H('b7a688e122ffaf95') and cmac(d3, m64[:8]) == H('8e8f293136283797'), 'SP800-38B CMAC-TDEA')
+    # SP 800-38D (McGrew-Viega test cases 1-4, 16)
+    z = AES(bytes(16)); ok(gcm(z, bytes(12), b'', b'') == H('58e2fccefa7e3061367f1d57a4e7455a'), 'GCM TC1')
+    ok(gcm(z, bytes(12), b'', bytes(16)) == H('0388dace60b6a392f328c2b971b2fe78ab6e47d42cec13bdf53a67b21257bddf'), 'GCM TC2')
+    gk = AES(H('feffe9928665731c6d6a8f9467308308')); giv = H('cafebabefacedbaddecaf888')
+    gp = H('d9313225f88406e5a55909c5aff5269a86a7a9531534f7da2e4c303d8a318a721c3c0c95956809532fcf0e2449a6b525b16aedf5aa0de657ba637b391aafd255')
+    gc = H('42831ec2217774244b7221b784d0d49ce3aa212f2c02a4e035c17e2329aca12e21d514b25466931c7d8f6a5aac84aa051ba30b396a0aac973d58e091473f5985')
+    ok(gcm(gk, giv, b'', gp) == gc + H('4d5c2af327cd64a62cf35abd2ba6fab4'), 'GCM TC3')
+    ga = H('feedfacedeadbeeffeedfacedeadbeefabaddad2')
+    ok(gcm(gk, giv, ga, gp[:60]) == gc[:60] + H('5bc94fbc3221a5db94fae95ae7121a47'), 'GCM TC4')
+    ok(gcm_decrypt(gk, giv, ga, gc[:60] + H('5bc94fbc3221a5db94fae95ae7121a47')) == gp[:60] and gcm_decrypt(gk, giv, ga, gc[:60] + H('5bc94fbc3221a5db94fae95ae7121a46')) is None, 'GCM decrypt / tag check')
+    ok(gcm(gk, H('cafebabefacedbad'), ga, gp[:60])[-16:] == H('3612d2e79e3b0785561be14aaca2fccb'), 'GCM TC5 (8-byte IV)')
+    big = bytes(rnd.getrandbits(8) for _ in range(5000)); g = _GH(0x66e94bd4ef8a2c3b884cfa59ca342b2e); ok(all(g.mul(x) == _gmul(x, g.h) for x in (1, 1 << 127, os2ip(big[:16]), os2ip(big[16:32]))), 'GHASH table multiplication')
+    # RFC 4231 (HMAC-SHA-2) test cases 1, 2, 6 and RFC 2202
+    ok(hmac('sha256', b'\x0b' * 20, b'Hi There') == H('b0344c61d8db38535ca8afceaf0bf12b881dc200c9833da726e9376c2e32cff7'), 'RFC 4231 TC1')
+    ok(hmac('sha256', b'Jefe', b'what do ya want for nothing?') == H('5bdcc146bf60754e6a042426089575c75a003f089d2739839dec58b964ec3843'), 'RFC 4231 TC2')
+    ok(hmac('sha256', b'\xaa' * 131, b'Test Using Larger Than Block-Size Key - Hash Key First') == H('60e431591ee0b67f0d8a26aacbf5b77f8e0bc6213728c5140546040f0ee37f54'), 'RFC 4231 TC6')
+    ok(hmac('sha1', b'Jefe', b'what do ya want for nothing?') == H('effcdf6ae5eb2fa2d27416d5f184df9c259a7c79') and hmac('md5', b'Jefe', b'what do ya want for nothing?') == H('750c783e6ab0b503eaa86e310a5db738'), 'RFC 2202')
+    for h in HASHLEN:
+        key = big[:77]; ok(hmac(h, key, big[:300]) == _hmac.new(key, big[:300], h).digest() and hmac(h, big[:200], b'') == _hmac.new(big[:200], b'', h).digest(), 'HMAC-%s vs hmac module' % h)
+    ok(digest('sha256', b'abc') == H('ba7816bf8f01cfea414140de5dae2223b00361a396177a9cb410ff61f20015ad') and digest('sha1', b'abc') == H('a9993e364706816aba3e25717850c26c9cd0d89d') and digest('md5', b'abc') == H('900150983cd24fb0d6963f7d28e17f72'), 'digests of "abc"')
+    # RFC 3394 4.1, 4.3, 4.6
+    kd = H('00112233445566778899aabbccddeeff')
+    ok(kw_wrap(AES(bytes(range(16))), kd) == H('1fa68b0a8112b447aef34bd8fb5a7b829d3e862371d2cfe5'), 'RFC 3394 4.1')
+    ok(kw_wrap(AES(bytes(range(32))), kd) == H('64e8c3f9ce0f5ba263e9777905818a2a93c8191e7d6e8ae7'), 'RFC 3394 4.3')
+    w = kw_wrap(AES(bytes(range(32))), kd + bytes(range(16))); ok(w == H('28c9f404c4b810f4cbccb35cfb87f8263f5786e2d80ed326cbc7f0e71a99f43bfb988b9b7a02dd21'), 'RFC 3394 4.6')
+    ok(kw_unwrap(AES(bytes(range(32))), w) == kd + bytes(range(16)) and kw_unwrap(AES(bytes(range(32))), w[:-1] + bytes([w[-1] ^ 1])) is None, 'RFC 3394 unwrap / integrity')
+    # RFC 5649 section 6
+    k5 = AES(H('5840df6e29b02af1ab493b705bf16ea1ae8338f4dcc176a8'))
+    ok(kwp_wrap(k5, H('c37b7e6492584340bed12207808941155068f738')) == H('138bdeaa9b8fa7fc61f97742e72248ee5ae6ae5360d1ae6a5f54f373fa543b6a'), 'RFC 5649 20-byte key')
+    ok(kwp_wrap(k5, H('466f7250617369')) == H('afbeb0f07dfbf5419200f2ccb50bb24f'), 'RFC 5649 7-byte key')
+    ok(kwp_unwrap(k5, H('afbeb0f07dfbf5419200f2ccb50bb24f')) == H('466f7250617369') and kwp_unwrap(k5, H('138bdeaa9b8fa7fc61f97742e72248ee5ae6ae5360d1ae6a5f54f373fa543b6a')) == H('c37b7e6492584340bed12207808941155068f738'), 'RFC 5649 unwrap')
+    ok(kwp_unwrap(k5, H('afbeb0f07dfbf5419200f2ccb50bb24e')) is None, 'RFC 5649 integrity')
+    ok(kcv('aes', bytes(16)) == H('66e94b') and kcv('des3', H('0123456789abcdef') * 3) == H('d5d44f'), 'KCV (AES zero key; DES 0123456789abcdef)')
+    ok(des_odd_parity(H('00010203fefffc80')) == H('01010202fefefd80'), 'DES parity')
+    # RFC 8032 7.1 (tests 1-3) and 7.4 (blank, 1 octet)
+    for sk, pk, msg, sig in (('9d61b19deffd5a60ba844af492ec2cc44449c5697b326919703bac031cae7f60', 'd75a980182b10ab7d54bfed3c964073a0ee172f3daa62325af021a68f707511a', '',
+                              'e5564300c360ac729086e2cc806e828a84877f1eb8e5d974d873e065224901555fb8821590a33bacc61e39701cf9b46bd25bf5f0595bbe24655141438e7a100b'),
+                             ('4ccd089b28ff96da9db6c346ec114e0f5b8a319f35aba624da8cf6ed4fb8a6fb', '3d4017c3e843895a92b70aa74d1b7ebc9c982ccf2ec4968cc0cd55f12af4660c', '72',
+                              '92a009a9f0d4cab8720e820b5f642540a2b27b5416503f8fb3762223ebdb69da085ac1e43e15996e458f3613d0f11d8c387b2eaeb4302aeeb00d291612bb0c00'),
+                             ('c5aa8df43f9f837bedb7442f31dcb7b166d38535076f094b85ce3a2e0b4458f7', 'fc51cd8e6218a1a38da47ed00230f0580816ed13ba3303ac5deb911548908025', 'af82',
+                              '6291d657deec24024827e69c3abe01a30ce548a284743a445e3680d7db5ac3ac18ff9b538d16f290ae67f760984dc6594a7c15e9716ed28dc027beceea1ec40a')):
+        e = EdKey(ED25519, H(sk)); ok(e.pk == H(pk) and e.sign(H(msg)) == H(sig) and e.verify(H(msg), H(sig)) and not e.verify(H(msg) + b'x', H(sig)), 'RFC 8032 Ed25519')
+    for sk, pk, msg, sig in (('6c82a562cb808d10d632be89c8513ebf6c929f34ddfa8c9f63c9960ef6e348a3528c8a3fcc2f044e39a3fc5b94492f8f032e7549a20098f95b',
+                              '5fd7449b59b461fd2ce787ec616ad46a1da1342485a70e1f8a0ea75d80e96778edf124769b46c7061bd6783df1e50f6cd1fa1abeafe8256180', '',
+                              '533a37f6bbe457251f023c0d88f976ae2dfb504a843e34d2074fd823d41a591f2b233f034f628281f2fd7a22ddd47d7828c59bd0a21bfd3980ff0d2028d4b18a9df63e006c5d1c2d345b925d8dc00b4104852db99ac5c7cdda8530a113a0f4dbb61149f05a7363268c71d95808ff2e652600'),
+                             ('c4eab05d357007c632f3dbb48489924d552b08fe0c353a0d4a1f00acda2c463afbea67c5e8d2877c5e3bc397a659949ef8021e954e0a12274e',
+                              '43ba28f430cdff456ae531545f7ecd0ac834a55d9358c0372bfa0c6c6798c0866aea01eb00742802b8438ea4cb82169c235160627b4c3a9480', '03',
+                              '26b8f91727bd62897af15e41eb43c377efb9c610d48f2335cb0bd0087810f4352541b143c4b981b7e18f62de8ccdf633fc1bf037ab7cd779805e0dbcc0aae1cbcee1afb2e027df36bc04dcecbf154336c19f0af7e0a6472905e799f1953d2a0ff3348ab21aa4adafd1d234441cf807c03a00')):
+        e = EdKey(ED448, H(sk)); ok(e.pk == H(pk) and e.sign(H(msg)) == H(sig) and e.verify(H(msg), H(sig)) and not e.verify(H(msg) + b'x', H(sig)), 'RFC 8032 Ed448')
+    # RFC 7748 5.2 and 6
+    ok(x25519(H('a546e36bf0527c9d3b16154b82465edd62144c0ac1fc5a18506a2244ba449ac4'), H('e6db6867583030db3594c1a424b15f7c726624ec26b3353b10a903a6d0ab1c4c')) == H('c3da55379de9c6908e94ea4df28d084f32eccf03491c71f754b4075577a28552'), 'RFC 7748 X25519')
+    ok(x448(H('3d262fddf9ec8e88495266fea19a34d28882acef045104d0d1aae121700a779c984c24f8cdd78fbff44943eba368f54b29259a4f1c600ad3'), H('06fce640fa3487bfda5f6cf2d5263f8aad88334cbd07437f020f08f9814dc031ddbdc38c19c6da2583fa5429db94ada18aa7a7fb4ef8a086'))
+       == H('ce3e4ff95a60dc6697da1db1d85e6afbdf79b50a2412d7546d5f239fe14fbaadeb445fc66a01b0779d98223961111e21766282f73dd96b6f'), 'RFC 7748 X448')
+    a = XKey('X25519', H('77076d0a7318a57d3c16c17251b26645df4c2f87ebc0992ab177fba51db92c2a')); b = XKey('X25519', H('5dab087e624a8a4b79e17f8b83800ee66f3bb1292618b6fd1c2f8b27ff88e0eb'))
+    ok(a.pk == H('8520f0098930a754748b7ddcb43ef75a0dbf3a0d26381af4eba4a98eaa9b4e6a') and a.derive(b.pk) == b.derive(a.pk) == H('4a5d9d5ba4ce2de1728e3bf480350f25e07e21c947d19e3376f09b3c1e161742'), 'RFC 7748 DH')
+    # curves: generator on curve, prime order, n*G = O; RFC 6979 A.2.5 (P-256, SHA-256, "sample")
+    for c in CURVES.values(): ok(c.on_curve(c.g) and is_prime(c.n) and is_prime(c.p) and c.mul(c.n, c.g) is None and c.mul(c.n + 1, c.g) == c.g, 'curve %s' % c.name)
+    for c in EDCURVES.values(): ok(c.on_curve(c.B) and is_prime(c.L) and c.mul(c.L, c.B) == (0, 1), 'curve %s' % c.name)
+    x = 0xC9AFA9D845BA75166B5C215767B1D6934E50C3DB36E89B127B8A622B120F6721; e = ECKey(P256, x); h1 = digest('sha256', b'sample'); kk = rfc6979_k(P256.n, x, h1, 'sha256')
+    ok(e.Q == (0x60FED4BA255A9D31C961EB74C6356D68C049B8923B61FA6CE669622E60F29FB6, 0x7903FE1008B8BC99A41AE9E95628BC64F2F1B20C2D7E9F5177A3C294D4462299), 'RFC 6979 A.2.5 public key')
+    sg = e.sign(h1, k=kk); ok(kk == 0xA6E3C57DD01ABE90086538398355DD4C3B17AA873382B0F24D6129493D8AAD60 and sg == H('EFD48B2AACB6A8FD1140DD9CD45E81D69D2C877B56AAF991C34D0EA84EAF3716F7CB1C942D657C41D436C7A1B6E29F65F3E900DBB9AFF4064DC4AB2F843ACDA8'), 'RFC 6979 A.2.5 ECDSA')
+    ok(e.verify(h1, sg) and not e.verify(digest('sha256', b'sampl3'), sg) and not e.verify(h1, sg[:-1] + bytes([sg[-1] ^ 1])), 'ECDSA verify')
+    for c in CURVES.values():
+        a = ECKey(c, rnd.randrange(1, c.n)); b = ECKey(c, rnd.randrange(1, c.n)); hh = big[:70]; sg = a.sign(hh, rnd=rnd)
+        ok(a.ecdh(b.Q) == b.ecdh(a.Q) and a.verify(hh, sg) and not b.verify(hh, sg) and c.decode_point(b'\x02' + a.point()[1:1 + c.flen] if not a.Q[1] & 1 else b'\x03' + a.point()[1:1 + c.flen]) == a.Q, 'ECDH/ECDSA %s' % c.name)
+        p8 = pkcs8_parse(a.pkcs8()); ok(p8['d'] == a.d and p8['curve'] is c and p8['point'] == a.point(), 'PKCS#8 EC round trip')
+    # RSA: consistency of the scheme implementations on a fresh key (the token cross-check is the real second opinion)
+    r = RSAKey.generate(1024, rnd); r2 = RSAKey.generate(1025, rnd); m = big[:50]
+    for key in (r, r2):
+        for h in HASHLEN:
+            s1 = key.sign_pkcs1(m, h); ok(key.verify_pkcs1(m, s1, h) and not key.verify_pkcs1(m + b'!', s1, h) and key.public(os2ip(s1)) == os2ip(key.em_pkcs1_sig(H(DIGESTINFO[h]) + digest(h, m))), 'RSA PKCS#1 v1.5 %s' % h)
+            for sl in sorted({0, 1, min(HASHLEN[h], key.pss_max_salt(h)), key.pss_max_salt(h)}):
+                s2 = key.sign_pss(m, h, sl, rnd=rnd); ok(key.verify_pss(m, s2, h, sl) and not key.verify_pss(m + b'!', s2, h, sl) and (sl == key.pss_max_salt(h) or not key.verify_pss(m, s2, h, sl + 1)), 'RSA PSS %s salt %d' % (h, sl))
+        ok(key.decrypt_pkcs1(key.encrypt_pkcs1(m, rnd)) == m and key.decrypt_oaep(key.encrypt_oaep(m, rnd=rnd)) == m and key.decrypt_oaep(key.encrypt_oaep(m, 'sha256', b'L', rnd=rnd), 'sha256', b'L') == m, 'RSA encryption round trips')
+        ok(key.raw_public(key.raw_private(m)) == m.rjust(key.k, b'\0') and key.private(5) == pow(5, key.d, key.n), 'RSA raw / CRT')
+        p8 = pkcs8_parse(key.pkcs8()); ok((p8['n'], p8['e'], p8['d'], p8['p'], p8['q'], p8['dp'], p8['dq'], p8['qinv']) == (key.n, key.e, key.d, key.p, key.q, key.dp, key.dq, key.qinv), 'PKCS#8 RSA round trip')
+    ok(mgf1(b'foo', 3, 'sha1') == H('1ac907') and mgf1(b'bar', 50, 'sha256')[:8] == H('382576a7841021cc'), 'MGF1 known answers')
+    # DSA / DH
+    P = DSAKey.generate_params(512, 160, rnd); dk = DSAKey(*P, x=rnd.randrange(1, P[1])); sg = dk.sign(big[:20], rnd=rnd)
+    ok(is_prime(P[0]) and is_prime(P[1]) and (P[0] - 1) % P[1] == 0 and pow(P[2], P[1], P[0]) == 1 and dk.verify(big[:20], sg) and not dk.verify(big[1:21], sg) and dk.verify(big[:64], dk.sign(big[:64], rnd=rnd)), 'DSA')
+    ok(pkcs8_parse(dk.pkcs8())['x'] == dk.x, 'PKCS#8 DSA round trip')
+    p = modp_prime(1024, 129093); ok(is_prime(p) and is_prime((p - 1) // 2) and hex(p)[2:].startswith('ffffffffffffffffc90fdaa22168c234c4c6628b80dc1cd1') and hex(p).endswith('49286651ece65381ffffffffffffffff'), 'Oakley group 2 from pi')
+    a = DHKey(p, 2, rnd.randrange(2, p - 2)); b = DHKey(p, 2, rnd.randrange(2, p - 2)); ok(a.derive(b.y) == b.derive(a.y) and len(a.derive(b.y)) == 128 and pkcs8_parse(a.pkcs8())['x'] == a.x, 'DH')
+    for bad in (b'', b'\x30', b'\x30\x82\x01', r.pkcs8()[:-3], b'\x31' + r.pkcs8()[1:], r.pkcs8() + b'\0'):
+        try: pkcs8_parse(bad); ok(False, 'malformed PKCS#8 accepted')
+        except DERError: ok(True, '')
+    rep = []; n2 = _second_opinions(rep)
+    if verbose:
+        print('refcrypt self-test: %d checks against standard vectors/invariants, %d second-opinion comparisons (nettle/hogweed/libsodium)' % (n, n2))
+        for l in rep: print('  note:', l)
+    return n + n2
+
+if __name__ == '__main__':
+    if '--selftest' in sys.argv:
+        try: selftest(verbose=True)
+        except AssertionError as e: print(e); sys.exit(1)
+        sys.exit(0)
+    print(__doc__)
